@@ -143,9 +143,16 @@ def HO (τ : Ty) (e : FExpr) : Prop := ∃ t : TExpr τ, erase t = e
     constructs futures from typed programs (first-order combinators, `Successful` of a future, `Flatten`) -/
 def EvOK (nsrc : Nat) : Ev → Prop
   | .run _ => True
-  | .src p _ => p < nsrc
-  | .mk e => ∃ τ, HO τ e
+  | .src p t => p < nsrc ∧ WFTry t       -- audit finding 1: never `Try{}` / `Failure(nil)` (see `Lemmas/FutWF.lean`)
+  | .mk e => (∃ τ, HO τ e) ∧ WFE e       -- … and every Try a constructed program can produce is well formed
   | .obs _ _ => True
+
+theorem EvOK.wf {nsrc : Nat} {ev : Ev} (h : EvOK nsrc ev) : EvWF ev := by
+  cases ev with
+  | run i => trivial
+  | src p t => exact h.2
+  | mk e => exact h.2
+  | obs p id => trivial
 
 def Valid (nsrc : Nat) (evs : List Ev) : Prop := ∀ ev ∈ evs, EvOK nsrc ev
 
@@ -167,13 +174,13 @@ theorem inv_step {nsrc : Nat} {T : TSpec} {n : Net} (h : Inv nsrc T n) (ev : Ev)
       obtain ⟨T', hi', hle'⟩ := inv_runTask h0 tk (taskOK_le hle tk (h.tasks tk hmem))
       exact ⟨T', hi', hle.trans hle'⟩
   | src p t =>
-    have hp : p < nsrc := hev
+    have hp : p < nsrc := hev.1
     obtain ⟨hi, hle⟩ := inv_completeEq h p t (Nat.lt_of_lt_of_le hp h.srcs.1) (h.srcs.2 p hp) (by
       intro _ σ' _ h1
       simp [den, absE, absS_val, h1, absT_val] <;> rfl)
     exact ⟨T, hi, hle⟩
   | mk e =>
-    obtain ⟨τ, t, rfl⟩ := hev
+    obtain ⟨⟨τ, t, rfl⟩, _⟩ := hev
     obtain ⟨hi, hle, _⟩ := inv_build (nsrc := nsrc) t T n h
     exact ⟨_, hi, hle⟩
   | obs p id =>
